@@ -114,6 +114,12 @@ def accept_iff(w, n, s):
     names = [w.choice(f'sig{j}_names', list(range(n + 1))) for j in range(s)]      # n = foreign signer
     valid = [w.bool(f'sig{j}_valid') for j in range(s)]
     blk = Blk(w.bytes('root_hash', 32), w.bytes('file_hash', 32))
+    # history independence: an EARLIER call with the same keys but other (symbolic) weights, validity bits and block must not
+    # influence this one (a result cached by public keys, say, would)
+    if n:
+        pre_w = [w.int(f'pre_w{i}', 0, 1 << 64) for i in range(n)]
+        pre_valid = [w.bool(f'pre_sig{j}_valid') for j in range(s)]
+        _run(w, M, n, names, pre_w, pre_valid, Blk(w.bytes('pre_root', 32), w.bytes('pre_file', 32)), [])
     records = []
     k, out = _run(w, M, n, names, weights, valid, blk, records)
     known = all(v < n for v in names)
